@@ -319,12 +319,21 @@ def runGtk (args : List String) : Option (String × String) :=
           ++ sFq12 (pw g a) ++ "|" ++ sBool (pw g a * pw g b == pw g (a + b)) ++ "|"
           ++ sBool (pw (pw g a) b == pw g (a * b)) ++ "|" ++ sBool (pw (g * h) a == pw g a * pw h a) ++ "|"
           ++ sBool (pw g 0 == one) ++ "|" ++ sBool (pw g 1 == g) ++ "|"
-          ++ sBool ((g == h) == (Api.fq12ToSlice g == Api.fq12ToSlice h)) ++ "|" ++ sBool (limbsBelowQ (g * h)))
+          ++ sBool ((g == h) == (Api.fq12ToSlice g == Api.fq12ToSlice h)) ++ "|" ++ sBool (limbsBelowQ (g * h)) ++ "|"
+          ++ (match inv with
+              | some i =>
+                let e := i * g
+                (match e.inverse, one.inverse with
+                 | some ei, some oi => sBool (ei == one && oi == one && Api.fq12ToSlice ei == Api.fq12ToSlice one
+                     && Api.fq12ToSlice oi == Api.fq12ToSlice one && g * ei == g
+                     && ((ei == e) == (Api.fq12ToSlice ei == Api.fq12ToSlice e)))
+                 | _, _ => "NONE")
+              | none => "NONE"))
       let sp : String :=
         match Spec.rate (Spec.ptMul Spec.opsQ k1.val Spec.P1) Spec.P2, Spec.rate Spec.P1 (Spec.ptMul Spec.opsQ2 k2.val Spec.P2) with
         | some g, some h =>
           Spec.encF12 (Spec.F12.mul g h) ++ "|true|true|true|" ++ Spec.encF12 (Spec.F12.pow g a.val)
-            ++ "|true|true|true|true|true|true|true"
+            ++ "|true|true|true|true|true|true|true|true"
         | _, _ => "SPEC-UNDEFINED"
       pure (sOut id m, sp)
   | _ => none
